@@ -276,7 +276,13 @@ busy:
 	}
 	p.B.Svc.OpenGate(150)
 	p.A.Svc.OpenGate(250)
-	p.wg.Wait()
+	fin := make(chan struct{})
+	go func() { p.wg.Wait(); close(fin) }()
+	select {
+	case <-fin:
+	case <-time.After(watchdog):
+		// (already reported above as a Link / a call that does not return; do not wait for it forever)
+	}
 	return out
 }
 
@@ -319,6 +325,7 @@ func runFaultSuite(rep *Report, tier string, seed int64, prop string) {
 		maxPer = 24
 		repeat = 4
 	}
+	failedCases := 0
 	run := func(fc faultCase, o *faultOutcome) {
 		rep.Evaluations++
 		if !o.fired {
@@ -340,6 +347,9 @@ func runFaultSuite(rep *Report, tier string, seed int64, prop string) {
 		if prop == "C16" {
 			probs = o.problems16
 		}
+		if len(probs) > 0 {
+			failedCases++
+		}
 		for _, pr := range probs {
 			kind := pr
 			if i := strings.IndexAny(pr, "(\""); i > 0 {
@@ -349,10 +359,16 @@ func runFaultSuite(rep *Report, tier string, seed int64, prop string) {
 				map[string]any{"suite": "fault", "case": fc, "cmd": fmt.Sprintf("./check %s --replay '%s'", prop, fc.String())})
 		}
 	}
+	// every failing case costs several watchdog periods: once a handful of distinct failures is on record,
+	// further enumeration only delays the report
+	enough := func() bool { return failedCases >= 6 }
 	for _, api := range apis() {
 		for _, k := range ks {
-			for r := 0; r < repeat; r++ {
+			for r := 0; r < repeat && !enough(); r++ {
 				for _, fc := range faultCases(jsonRaw(), api, k, maxPer) {
+					if enough() {
+						break
+					}
 					run(fc, runFaultCase(jsonRaw(), fc, false))
 					if r == 0 && fc.N <= 2 {
 						fc.CB = true
@@ -360,7 +376,7 @@ func runFaultSuite(rep *Report, tier string, seed int64, prop string) {
 					}
 				}
 			}
-			if tier == "thorough" {
+			if tier == "thorough" && !enough() {
 				for _, fc := range faultCases(cborRaw(), api, k, maxPer) {
 					run(fc, runFaultCase(cborRaw(), fc, false))
 				}
@@ -369,6 +385,9 @@ func runFaultSuite(rep *Report, tier string, seed int64, prop string) {
 				}
 			}
 		}
+	}
+	if enough() {
+		return
 	}
 	if prop == "C03" {
 		n := 150
